@@ -55,7 +55,7 @@ def generate(tier, seed):
         for arg, (lo, hi, typ) in common.opt_bounds(name, dim).items():
             vals = [v for v in common.SPECIAL_VALUES.get(arg, []) if (v > lo or (v == lo and typ[0] == "c")) and (v < hi or (v == hi and typ[1] == "c"))]
             for v in (vals if tier == "thorough" else [vals[i] for i in rng.permutation(len(vals))[:3]]):
-                for fac in (1.0, 1.0 + 2e-6, 1.0 - 2e-6):
+                for fac in (1.0, 1.0 + 2e-6, 1.0 - 2e-6, 1.0 - 4e-9, 1.0 + 4e-9):  # inside / outside tolerant integer tests of either width
                     vv = v * fac
                     if not (lo < vv < hi):
                         continue
@@ -157,7 +157,7 @@ def check_closed_form(ctx, c):
         ctx.fail({"what": "var/sill", "model": d["name"]}, f"var {model.var} vs {var}, sill {model.sill} vs {sill}")
     if d["name"] in common.TPL:
         vf = ocov.tpl_var_factor(d)
-        if abs(model.var_raw * vf - var) > 1e-10 * var:
+        if not abs(model.var_raw * vf - var) <= 1e-10 * var:
             ctx.fail({"what": "tpl-var-factor", "model": d["name"]}, f"var_raw*factor = {model.var_raw * vf} vs var {var}")
     # (2) identities between the functions
     ctx.event("identity_values", 3 * lags.size)
@@ -174,7 +174,7 @@ def check_closed_form(ctx, c):
         if not np.all(e3 <= 1e-12 + 1e-13 * np.abs(s * lags / d["len_scale"]) * 10):
             i = int(np.nanargmax(e3))
             ctx.fail({"what": "correlation(r)!=cor(s*r/l)", "model": d["name"]}, f"r={lags[i]!r}: {viacor[i]!r} vs {got['correlation'][i]!r}")
-    if abs(model.len_rescaled - d["len_scale"] / s) > 1e-14 * d["len_scale"] / s:
+    if not abs(model.len_rescaled - d["len_scale"] / s) <= 1e-14 * d["len_scale"] / s:
         ctx.fail({"what": "len_rescaled", "model": d["name"]}, f"{model.len_rescaled} vs {d['len_scale']/s}")
     # (3) nugget-aware variants differ only at r = 0
     pos = lags[lags >= 1e-6 * d["len_scale"] / s]
@@ -185,7 +185,9 @@ def check_closed_form(ctx, c):
     v0, c0 = float(model.vario_nugget(0.0)), float(model.cov_nugget(0.0))
     if v0 != 0.0 or abs(c0 - sill) > 1e-14 * sill:
         ctx.fail({"what": "nugget-variants-at-0", "model": d["name"]}, f"vario_nugget(0)={v0}, cov_nugget(0)={c0}, sill={sill}")
-    if abs(float(model.variogram(0.0)) - nug) > 1e-12 * sill or abs(float(model.covariance(0.0)) - var) > 1e-12 * var:
+    # (orders within 1e-8 of an integer are evaluated as that integer: E_n(0) = 1/(n-1) instead of 1/(s-1), i.e. 1 +- 1e-8 at zero lag)
+    zero_tol = 1e-12 + (4e-8 if (order is not None and 0 < abs(order() - round(order())) <= 1e-8) else 0.0)
+    if abs(float(model.variogram(0.0)) - nug) > zero_tol * sill or abs(float(model.covariance(0.0)) - var) > zero_tol * var:
         ctx.fail({"what": "plain-functions-at-0", "model": d["name"]},
                  f"variogram(0)={float(model.variogram(0.0))} (nugget {nug}), covariance(0)={float(model.covariance(0.0))}")
     # (4) input shapes: scalar, 0-d, 2-d and negative lags (distances enter through their absolute value)
@@ -235,7 +237,7 @@ def check_scales(ctx, c):
         ctx.fail({"what": "integral_scale!=int(rho)", "model": name, "dim": d["dim"]},
                  f"{name} {opt} len_scale={d['len_scale']}: reported {got!r}, integral of the correlation {want!r}")
     vec = model.integral_scale_vec
-    if abs(vec[0] - got) > 1e-12 * got:
+    if not abs(vec[0] - got) <= 1e-12 * got:
         ctx.fail({"what": "integral_scale_vec", "model": name}, f"{vec} vs {got}")
     # prescribing the integral scale instead of the length scale
     target = round(0.5 + 3 * (d["len_scale"] % 1.0), 3)
@@ -257,7 +259,7 @@ def check_scales(ctx, c):
     if m2 is not None:
         d2 = dict(d, len_scale=float(m2.len_scale))
         back = float(ocov.integral_scale(d2))
-        if abs(back - target) > max(10 * tol, 1e-5) * target:
+        if not abs(back - target) <= max(10 * tol, 1e-5) * target:
             ctx.fail({"what": "integral_scale=-not-reproduced", "model": name, "dim": d["dim"]},
                      f"{name} {opt}: requested {target}, integral of the resulting correlation {back}")
     # percentile scale
@@ -306,7 +308,7 @@ def check_scales_history(ctx, c):
         ps_first = float(model.percentile_scale(0.5))
     want1 = float(ocov.integral_scale(d1))
     ctx.event("integral_scales")
-    if abs(first - want1) > tol * want1:
+    if not abs(first - want1) <= tol * want1:
         ctx.fail({"what": "integral_scale!=int(rho)", "model": name, "dim": d1["dim"]}, f"fresh model: {first} vs {want1}")
     # assign the parameters of the second description one by one, in a seeded order, reading after every step
     steps = [("len_scale", d2["len_scale"]), ("var", d2["var"])] + sorted(d2.get("opt", {}).items())
@@ -334,7 +336,7 @@ def check_scales_history(ctx, c):
         want = float(ocov.integral_scale(cur))
         ctx.event("integral_scales")
         ctx.event("scale_reads_after_setter")
-        if abs(got - want) > tol * want:
+        if not abs(got - want) <= tol * want:
             ctx.fail({"what": "integral_scale-stale-after-setter", "model": name, "dim": d1["dim"], "setter": key if key in ("len_scale", "var") else "opt_arg"},
                      f"{name}: after {key}={val}: reported {got}, integral of the correlation {want} (first read {first})")
             return
@@ -454,10 +456,10 @@ def check_user_model(ctx, c):
     # scales work for user models as well
     want_is = unit * math.gamma(1 + 1 / c["expo"])
     got_is = float(m.integral_scale)
-    if abs(got_is - want_is) > 1e-6 * want_is:
+    if not abs(got_is - want_is) <= 1e-6 * want_is:
         ctx.fail({"what": "user-model-integral-scale", "defined_by": c["how"]}, f"{got_is} vs {want_is}")
     ps = float(m.percentile_scale(0.5))
-    if abs(float(m.variogram(ps)) - (0.5 * c["var"] + c["nugget"])) > 1e-8 * c["var"]:
+    if not abs(float(m.variogram(ps)) - (0.5 * c["var"] + c["nugget"])) <= 1e-8 * c["var"]:
         ctx.fail({"what": "user-model-percentile-scale", "defined_by": c["how"]}, f"variogram({ps}) = {float(m.variogram(ps))}")
 
 
